@@ -48,8 +48,8 @@ LEVEL_TEXT = ('Machine-checked theorems about the program regenerated from src/p
               'accepted by the declarative judge (every declared name once with its latest value, every constraint between present '
               'names respected, Unsatisfied/Cyclic errors exactly when justified; C18_gen_model_judged), sorted() never fails '
               'internally, tweens and view derivers nest in list order with an explicit tween list winning; plus, on the reference '
-              'model, cycle_iff_error in both directions, tween histories, predicate directives, and the default deriver order '
-              '(secured_view first). Ties: generated = model theorems (no shape pins on the translated functions), regenerated '
+              'model, cycle_iff_error in both directions, tween histories, predicate directives, the default deriver order '
+              '(secured_view first) and, after any add_view_deriver calls, every deriver outside mapped_view (user callable innermost). Ties: generated = model theorems (no shape pins on the translated functions), regenerated '
               'constants, 22 shape pins on the untranslated functions, differential run with the Coq judge on the implementation.')
 LEVEL_NOTE = ('Trusted: Coq kernel; the translator\'s primitive table (leaf claims about dict/list/set methods, the graph entry '
               'representation, the unchecked list.remove on order/req_* which is unreachable by C18_rep_reachable, the fuel = '
@@ -943,6 +943,15 @@ def kinds(case, obs):
     else:
         codes, fin = obs if (isinstance(obs, list) and len(obs) == 2) else ([], ['?'])
         out.append('%s-adds%d' % (k, len(case['adds'])))
+        if k == 'derivers':
+            if any(isinstance(a[2], list) and 'VIEW' in a[2] for a in case['adds']):
+                out.append('derivers-over-iterable-with-VIEW')
+            if any(isinstance(a[1], list) and 'INGRESS' in a[1] for a in case['adds']):
+                out.append('derivers-under-iterable-with-INGRESS')
+            if any(a[0] in DV_DEFAULT for a in case['adds']):
+                out.append('derivers-stock-replaced')
+            if any(a[0] == 'mapped_view' for a in case['adds']):
+                out.append('derivers-mapped_view-replaced')
         for c in codes:
             out.append('%s-add-code-%s' % (k, c if isinstance(c, int) else 'exc'))
         if isinstance(fin, list) and fin:
